@@ -35,6 +35,10 @@ func init() {
 		NotDecided: "position arithmetic, deletion, TotalRows handling, equality with the reference value, batching independence — the behavioural core. This is a thin " +
 			"claim: a change that breaks R01a-c is almost certainly caught by the existing tests as well.",
 		Rules: []RuleDef{{ID: "R01", Statement: "sibling agreement of the block-application implementations", Run: runC01},
+			{ID: "R01e", Statement: "the forest grows per added leaf", Run: func(p *Program, r *Report) {
+				r.Rule("R01e", "GROW-PER-LEAF: the map forest's growth step (which sizes the forest for one more leaf) is reached on every iteration of the add phase's loop over the added leaves")
+				checkGrowPerLeaf(p, r, "R01e")
+			}},
 			{ID: "R01d", Statement: "moves keep the node", Run: func(p *Program, r *Report) {
 				r.Rule("R01d", "MOVE-PAIRING: where the map forest deletes a node at its old position and puts the value read there at a new one (growth, move-up, undo), the put happens on every path that deletes - empty roots included")
 				checkMovePairing(p, r, "R01d")
